@@ -33,6 +33,12 @@ func init() {
 		assumptions: append([]string{"a compare helper / Compare method / strings.Compare / bytes.Compare returns the sign of the ordering of its two operands"}, commonAssumptions...),
 		technique:   "abstract interpretation of the compare generator into residual programs + abstract evaluation of each residual over a finite ordering table; AST/guard-set lints",
 	}
+	checks["C04"] = &checkDef{
+		run: runR_C04,
+		explanation: "Engine R on the hash plugin: every residual (R16) reaches map entries only through sort(keys(m)); (R-input) reads nothing but the value: no package-level state, no package other than math.Float32bits/Float64bits, no cap/uintptr/%p, no helper other than hash/sort/keys, a pointer operand is only nil-tested, dereferenced or handed to a hash helper; (R10) writes nothing through its argument; (R7) dereferences are nil-guarded; (R17) leaf-table contradiction: a bit-injective leaf function over a kind whose Equal leaf is the coarser `==`, and nil-vs-empty seeds against a nil-blind Equal leaf. Not decided: collision quality, user Hash methods, that Equal implies equal inputs to the fold beyond the listed mechanisms.",
+		assumptions: append([]string{"math.Float32bits/Float64bits are bit-injective and == on floats identifies +0 and -0 (Go specification facts frozen in the checker)"}, commonAssumptions...),
+		technique:   "abstract interpretation of the hash generator into residual programs + AST lints (input whitelist, ordered-map-traversal, leaf-table contradiction)",
+	}
 	checks["C07"] = &checkDef{
 		run: func(c *Ctx) {
 			runG4(c.Repo, c.Rep)
